@@ -87,6 +87,9 @@ type scene struct {
 	fa, fb   []byte          // announcements of O (older a, newer b) as they would reach the victim
 	fc       []byte          // announcement of O2
 	idToNum  map[int]int     // mesh id -> model number (1..L forwarders, 9 origin, 8 other peer, 7 stranger)
+	// renew: the forwarder next to the victim signs its record with this delay / label offset (0 = random delay, real label)
+	forceDelay      uint16
+	forceLabelDelta int
 }
 
 // node ids: 1 = V, 2..L+1 = R1..RL, L+2 = O, L+3 = X, L+4 = O2
@@ -205,6 +208,12 @@ func (s *scene) ownRecord(frameData, inner []byte, rng *rand.Rand) []byte {
 		ReturnLabel:    s.r1.LinkTo(s.v).SwitchLabel(),
 		NextAttachment: inner,
 	}
+	if s.forceDelay != 0 {
+		// "renew": the same forwarder, another measured delay (both below the 5 ms every hop counts at least) and its
+		// link to the next router under another label
+		at.Delay = s.forceDelay
+		at.ForwardLabel += m.SwitchLabel(s.forceLabelDelta)
+	}
 	data, err := cbor.Marshal(at)
 	if err != nil {
 		panic(err)
@@ -293,6 +302,13 @@ func (s *scene) forge(a act, rng *rand.Rand, off int) (data []byte, from *world.
 		return withAppendix(fa, chain[0].att.NextAttachment), from, ""
 	case "claimdirect":
 		return withAppendix(fa, s.ownRecord(fa, nil, rng)), from, ""
+	case "renew":
+		pb := layout(s.fb)
+		chainB := decodeChain(s.fb[pb.apxFrom:])
+		s.forceDelay, s.forceLabelDelta = 3, 1
+		d := withAppendix(s.fb, s.ownRecord(s.fb, chainB[0].att.NextAttachment, rng))
+		s.forceDelay, s.forceLabelDelta = 0, 0
+		return d, from, "newer announcement, forwarder's record: delay 3 ms, forward label +1 (earlier: 1 ms)"
 	case "skipto":
 		return withAppendix(fa, s.ownRecord(fa, chain[a.Depth-1].raw, rng)), from, ""
 	case "innerflip":
@@ -358,6 +374,7 @@ type result struct {
 	Genuine   bool
 	Err       string
 	Panic     bool
+	Binding   bool // a session of the victim ended up bound to another router's address / key
 }
 
 func tableOf(n *world.Node) []m.RoutingTableEntry {
@@ -377,6 +394,13 @@ func runCase(c *vf.Ctx, L int, a act, rng *rand.Rand, off int) (result, string, 
 			from = s.r1
 		}
 		_, _ = s.ms.W.DeliverRaw(from, s.v, s.fb)
+	}
+	if a.Op == "renew" {
+		// the earlier announcement, with the forwarder's record at delay 1 ms and its present label, is processed first
+		s.forceDelay, s.forceLabelDelta = 1, 0
+		first := withAppendix(s.fa, s.ownRecord(s.fa, decodeChain(s.fa[layout(s.fa).apxFrom:])[0].att.NextAttachment, rng))
+		s.forceDelay = 0
+		_, _ = s.ms.W.DeliverRaw(s.r1, s.v, first)
 	}
 	data, from, note := s.forge(a, rng, off)
 	if a.Seen {
@@ -460,16 +484,33 @@ func runCase(c *vf.Ctx, L int, a act, rng *rand.Rand, off int) (result, string, 
 	if r.Path == nil {
 		r.Path = []int{}
 	}
+	// whatever was processed: every router the victim has a session with is bound to ITS OWN address and key
+	for id := 1; id <= len(s.ms.Nodes); id++ {
+		nd := s.ms.Node(id)
+		if nd == s.v {
+			continue
+		}
+		if sess := s.v.St.GetSession(nd.ID.IP); sess != nil {
+			if ad := sess.Address(); ad == nil || ad.IP != nd.ID.IP || !bytes.Equal(ad.PublicKey, nd.ID.PublicKey) {
+				r.Err = fmt.Sprintf("BINDING: the victim's session for %s is bound to %v", nd.ID.IP, ad)
+				r.Binding = true
+			}
+		}
+	}
 	return r, note, s
 }
 
 func judge(c *vf.Ctx, a act, r result, note string, realLen int) {
 	desc := map[string]any{"case": a, "real_chain_length": realLen, "detail": note, "observed": r}
 	switch {
+	case r.Binding:
+		c.Violation(vf.Key("binding", a.Op), fmt.Sprintf("%s at depth %d on a chain of %d: after the announcement was processed %s", a.Op, a.Depth, realLen, r.Err), desc, nil)
 	case r.Panic:
 		c.Violation(vf.Key("panic", a.Op), fmt.Sprintf("%s at depth %d on a chain of %d: the router worker panicked", a.Op, a.Depth, realLen), desc, nil)
 	case r.Accepted && !a.PropAccept:
 		c.Violation(vf.Key("forgery-accepted", a.Op), fmt.Sprintf("%s at depth %d on a chain of %d (%s): the announcement was accepted, route via %v installed", a.Op, a.Depth, realLen, note, r.Path), desc, nil)
+	case !r.Accepted && a.PropAccept && a.Op == "renew":
+		c.Violation(vf.Key("stale-route", a.Op), fmt.Sprintf("renew on a chain of %d: a newer genuine announcement over the same forwarders was processed (%s) but the route did not take over what its records say (%s): it still carries the earlier announcement's delay and labels", realLen, note, r.Err), desc, nil)
 	case !r.Accepted && a.PropAccept && !a.Seen:
 		c.Violation(vf.Key("genuine-rejected", a.Op), fmt.Sprintf("%s on a chain of %d: rejected (%s) although every named router signed its hop", a.Op, realLen, r.Err), desc, nil)
 	case !a.PropAccept && !r.Unchanged:
